@@ -48,6 +48,17 @@ def parseFn (s : String) : Option Fn :=
   | ["tie", c, e, k] => do
     let c ← c.toNat?; let e ← e.toNat?; let k ← k.toNat?
     pure (Fn.throwIfEq c e k)
+  -- constant results; the v* forms are callables returning void (the harness appends a `then` producing k): same function
+  | ["cst", k] => k.toNat?.map Fn.const
+  | ["vcst", k] => k.toNat?.map Fn.const
+  | ["vthr", e] => e.toNat?.map Fn.throwAlways
+  | ["ctie", c, e, k] => do
+    let c ← c.toNat?; let e ← e.toNat?; let k ← k.toNat?
+    pure (Fn.constThrowIfEq c e k)
+  | ["vtie", c, e, k] => do
+    let c ← c.toNat?; let e ← e.toNat?; let k ← k.toNat?
+    pure (Fn.constThrowIfEq c e k)
+  | [n] => n.toNat?.map Fn.const
   | _ => none
 
 partial def toExpr : SExp → Option Expr
@@ -61,13 +72,17 @@ partial def toExpr : SExp → Option Expr
   | .list [.atom "leaf", .atom n] => n.toNat?.map Expr.leaf
   | .list [.atom "then", .atom f, c] => do let f ← parseFn f; let c ← toExpr c; pure (.un (.thenF f) c)
   | .list [.atom "uerr", .atom f, c] => do let f ← parseFn f; let c ← toExpr c; pure (.un (.uponError f) c)
-  | .list [.atom "udone", .atom n, c] => do let v ← n.toNat?; let c ← toExpr c; pure (.un (.uponDone v) c)
+  | .list [.atom "udone", .atom f, c] => do let f ← parseFn f; let c ← toExpr c; pure (.un (.uponDone f) c)
   | .list [.atom "md", c] => do let c ← toExpr c; pure (.un .matDemat c)
   | .list [.atom "dao", .atom n, c] => do let v ← n.toNat?; let c ← toExpr c; pure (.un (.doneAsOpt v) c)
   | .list [.atom "uns", c] => do let c ← toExpr c; pure (.un .unstoppable c)
   | .list [.atom "tag", .atom n, c] => do let v ← n.toNat?; let c ← toExpr c; pure (.un (.withTag v) c)
   | .list [.atom "src", c] => do let c ← toExpr c; pure (.un .withSrc c)
   | .list [.atom "era", c] => do let c ← toExpr c; pure (.un .erase c)
+  -- harness-only wrappers that must be transparent: `rtk` = a receiver boundary whose stop token is a counting wrapper
+  -- (monitor: no callback registered when a completion passes), `lvt` = let_value_with_stop_token(λtoken. child)
+  | .list [.atom "rtk", c] => do let c ← toExpr c; pure (.un .erase c)
+  | .list [.atom "lvt", c] => do let c ← toExpr c; pure (.un .erase c)
   | .list [.atom "iv", c] => do let c ← toExpr c; pure (.un .intoVariant c)
   | .list [.atom "dfr", c] => do let c ← toExpr c; pure (.un .deferK c)
   | .list [.atom "alc", c] => do let c ← toExpr c; pure (.un .allocate c)
